@@ -308,16 +308,51 @@ func runR072(c *core.Ctx) {
 	// enterMapScope shape
 	_, em := mustDecl(c, rel, "(*missingFieldsTracker).enterMapScope")
 	ignoreGuard, sliceFrom, mapsWild := false, false, false
+	empar := core.Parents(em)
+	// the matcher runs only when the scope is longer than scopeToIgnore — early `return nil`, enclosing if, either operand order
+	longer := func(f core.Fact) bool {
+		be, ok := core.Unparen(f.Expr).(*ast.BinaryExpr)
+		if !ok {
+			return false
+		}
+		isIgnore := func(e ast.Expr) bool {
+			sel, ok := core.Unparen(e).(*ast.SelectorExpr)
+			return ok && sel.Sel.Name == "scopeToIgnore"
+		}
+		isLen := func(e ast.Expr) bool {
+			call, ok := core.Unparen(e).(*ast.CallExpr)
+			if !ok || len(call.Args) != 1 {
+				return false
+			}
+			id, ok := core.Unparen(call.Fun).(*ast.Ident)
+			return ok && id.Name == "len"
+		}
+		op := be.Op
+		x, y := be.X, be.Y
+		if isIgnore(x) && isLen(y) { // scopeToIgnore OP len  ->  len OP' scopeToIgnore
+			x, y = y, x
+			switch op {
+			case token.LSS:
+				op = token.GTR
+			case token.GTR:
+				op = token.LSS
+			case token.LEQ:
+				op = token.GEQ
+			case token.GEQ:
+				op = token.LEQ
+			}
+		}
+		if !isLen(x) || !isIgnore(y) {
+			return false
+		}
+		return (op == token.GTR && f.Val) || (op == token.LEQ && !f.Val)
+	}
 	ast.Inspect(em.Body, func(n ast.Node) bool {
 		switch x := n.(type) {
-		case *ast.IfStmt:
-			if be, ok := core.Unparen(x.Cond).(*ast.BinaryExpr); ok && (be.Op == token.LEQ) {
-				if sel, ok := core.Unparen(be.Y).(*ast.SelectorExpr); ok && sel.Sel.Name == "scopeToIgnore" {
-					for _, s := range x.Body.List {
-						if r, ok := s.(*ast.ReturnStmt); ok && len(r.Results) == 1 && core.IsNil(inf, r.Results[0]) {
-							ignoreGuard = true
-						}
-					}
+		case *ast.CallExpr:
+			if cf := core.Callee(inf, x); cf != nil && cf.Name() == "genericMatches" {
+				if core.GuardedByFact(inf, empar, core.EnclosingStmt(empar, x), longer, nil) {
+					ignoreGuard = true
 				}
 			}
 		case *ast.SliceExpr:
